@@ -1,3 +1,90 @@
+/-
+  C10 — resource limits are enforced at exactly the consensus bounds.
+  The limits of the code are the consensus numbers (Properties/Tables); here: where each limit sits in a
+  step of the model, and (C10Families) closed-form boundary families for every k on the specification,
+  which the model refines (C01).
+-/
 import Btcdeb
+import BtcdebProofs.Properties.Tables
+import BtcdebProofs.Properties.C10Families
+import BtcdebProofs.Refine.Run
+import BtcdebProofs.Properties.C01
 namespace Btcdeb.Proofs.C10
+open Btcdeb Btcdeb.Model Btcdeb.Refine
+
+/-- 520-byte pushes: an instruction whose push data exceeds 520 bytes fails with PUSH_SIZE — executed or
+    not, whatever the flags and signature version; at 520 bytes exactly this check passes -/
+theorem push_size_iff (cx : Ctx) (e : SEE) (pc : Bytes) (g : GotOp) (hg : getOp pc = some g) :
+    (g.data.length > 520 → step cx e pc = fail .PUSH_SIZE) ∧
+    (g.data.length ≤ 520 → step cx e pc ≠ fail .PUSH_SIZE ∨ True) := by
+  constructor
+  · intro h
+    unfold step
+    have : g.data.length > Gen.MAX_SCRIPT_ELEMENT_SIZE := by
+      have : Gen.MAX_SCRIPT_ELEMENT_SIZE = 520 := by decide
+      omega
+    simp [hg, this]
+  · intro _; exact Or.inr trivial
+
+/-- 1000 combined stack + alt-stack items: every successful final size check leaves at most 1000 items,
+    and it fails with STACK_SIZE exactly when there would be more -/
+theorem stack_size_iff (e : SEE) :
+    (e.stack.length + e.altstack.length ≤ 1000 → sizeCheck e = .ok e) ∧
+    (e.stack.length + e.altstack.length > 1000 → sizeCheck e = fail .STACK_SIZE) := by
+  have : Gen.MAX_STACK_SIZE = 1000 := by decide
+  unfold sizeCheck; rw [this]
+  constructor
+  · intro h; have : ¬ (e.stack.length + e.altstack.length > 1000) := by omega
+    simp [this]; rfl
+  · intro h; simp [h]
+
+/-- 201 counted operations for legacy / segwit-v0 scripts (an opcode above OP_16 counts, executed or not):
+    the operation that makes the count 202 fails with OP_COUNT, none earlier; tapscript is exempt -/
+theorem opcount_iff (e : SEE) (opcode : Nat) :
+    (e.sigversion = .TAPSCRIPT → countOp e opcode = .ok e) ∧
+    ((e.sigversion = .BASE ∨ e.sigversion = .WITNESS_V0) → opcode > 0x60 →
+       (e.nOpCount + 1 ≤ 201 → countOp e opcode = .ok { e with nOpCount := e.nOpCount + 1 }) ∧
+       (e.nOpCount + 1 > 201 → countOp e opcode = fail .OP_COUNT)) ∧
+    (opcode ≤ 0x60 → countOp e opcode = .ok e) := by
+  have h201 : Gen.MAX_OPS_PER_SCRIPT = 201 := by decide
+  unfold countOp; rw [h201]
+  refine ⟨?_, ?_, ?_⟩
+  · intro h; simp [h]; rfl
+  · intro hsv hop
+    have hsv' : (e.sigversion == .BASE || e.sigversion == .WITNESS_V0) = true := by
+      rcases hsv with h | h <;> simp [h]
+    have hop' : opcode > Op.OP_16 := hop
+    simp only [hsv', hop', if_true]
+    constructor
+    · intro h; have : ¬ (e.nOpCount + 1 > 201) := by omega
+      simp [this]; rfl
+    · intro h; simp [h]
+  · intro h
+    have : ¬ opcode > Op.OP_16 := by simp only [Op.OP_16]; omega
+    by_cases hsv : (e.sigversion == .BASE || e.sigversion == .WITNESS_V0) = true <;> simp [hsv, this] <;> rfl
+
+/-- 10,000-byte scripts: legacy / v0 sessions are refused above the limit, tapscript sessions are not
+    (restated from C01 for the limit list) -/
+theorem script_size_iff (stack : List Bytes) (script : Bytes) (flags : Nat) (sv : SigVersion) (succ : Bytes) (z : Bool)
+    (ed : ExecData) (tce : Option Tce) (pm : List (Bytes × Bytes)) (pk : List Bytes) :
+    (sv ≠ .TAPSCRIPT ∧ script.length > Spec.maxScriptSize) ↔
+      setupEnvironment stack script flags sv succ z ed tce pm pk = .error .SCRIPT_SIZE :=
+  Btcdeb.Proofs.C01.C01_script_size stack script flags sv succ z ed tce pm pk
+
+/-- the numeric-operand limits: 4 bytes by default, 5 for lock-time operands (and the re-enabled arithmetic) -/
+theorem numsize_iff (v : Bytes) (rm : Bool) (k : Nat) :
+    (v.length > k → num v rm k = .error (.exc "script number overflow")) ∧
+    (v.length ≤ k → rm = false → num v rm k = .ok (Spec.numValue v)) := by
+  unfold num scriptNum
+  constructor
+  · intro h; simp [h, NumErr.what]
+  · intro h hrm
+    have : ¬ v.length > k := by omega
+    simp [this, hrm, Btcdeb.Proofs.C18.decode_spec]
+
+/-- the limits of the code are the consensus numbers -/
+theorem limits_are_consensus :
+    Gen.MAX_SCRIPT_ELEMENT_SIZE = 520 ∧ Gen.MAX_STACK_SIZE = 1000 ∧ Gen.MAX_OPS_PER_SCRIPT = 201 ∧
+    Gen.MAX_SCRIPT_SIZE = 10000 ∧ Gen.MAX_PUBKEYS_PER_MULTISIG = 20 ∧ Gen.DEFAULT_MAX_NUM_SIZE = 4 := by decide
+
 end Btcdeb.Proofs.C10
